@@ -255,7 +255,8 @@ from bare_script.library import SCRIPT_FUNCTIONS as F
 bad = []
 for y, mo, d, h, mi, s, ms in [(2024,1,15,12,0,0,0),(2024,7,15,12,30,15,123),(2024,3,10,1,59,59,999),(2024,3,10,3,0,0,0),(2024,11,3,0,30,0,1),
                                (2024,11,3,2,30,0,0),(2024,3,31,0,30,0,0),(2024,10,27,3,30,0,5),(1999,12,31,23,59,59,999),(2038,1,19,3,14,8,0),
-                               (1970,1,2,0,0,0,0),(2024,4,7,3,0,0,0),(2024,10,6,1,45,0,0),(2021,2,28,23,0,0,500)]:
+                               (1970,1,2,0,0,0,0),(2024,4,7,3,0,0,0),(2024,10,6,1,45,0,0),(2021,2,28,23,0,0,500),
+                               (5000,6,15,12,34,55,349),(2500,1,1,0,0,1,1),(1995,7,4,8,9,10,777),(9000,12,30,23,59,59,999)]:
     dt = F['datetimeNew']([y, mo, d, h, mi, s, ms], None)
     text = F['datetimeISOFormat']([dt], None)
     back = F['datetimeISOParse']([text], None)
@@ -263,6 +264,14 @@ for y, mo, d, h, mi, s, ms in [(2024,1,15,12,0,0,0),(2024,7,15,12,30,15,123),(20
     exists = datetime.datetime.fromtimestamp(dt.timestamp()) == dt
     if exists and back != dt:
         bad.append((repr(dt), text, repr(back)))
+from bare_script import parse_expression, evaluate_expression
+SUB = parse_expression('(dd + nn) - dd')
+for y, mo, d, h in [(2024,3,9,12),(2024,11,2,12),(2024,3,30,12),(2024,10,26,12),(2024,4,6,12),(2024,10,5,12),(2024,9,28,12),(2024,1,1,0)]:
+    dt = F['datetimeNew']([y, mo, d, h, 30, 0, 0], None)
+    for n in (86400000, 172800000, -86400000, 3600000 * 30, 1, 1001, -3600001, 10**12):
+        r = evaluate_expression(SUB, {'globals': {'dd': dt, 'nn': n}})
+        if r != n:
+            bad.append(('add then subtract', repr(dt), n, repr(r)))
 for t in ['2024-02-30', '2024-13-01', '2024-02-30T10:00:00Z', '2024-01-01T25:00:00Z', 'x', '2024-1-1', '2024-01-01T10:00:00+0100', '']:
     try:
         r = F['datetimeISOParse']([t], None)
